@@ -255,7 +255,25 @@ def _target_derived_keys(repo) -> Dict[str, Set[str]]:
     for ci in concrete_experimental_samplers(repo):
         keys = repo.fold_keys(ci, "_STATE_KEYS")
         found = set()
-        for mname in ("initialize", "_initialize"):
+        # everything initialisation runs: initialize / _initialize and the own methods they call (template-method hooks, super() chains), in every
+        # definition along the MRO
+        names, work = set(), ["initialize", "_initialize"]
+        while work:
+            mname = work.pop()
+            if mname in names:
+                continue
+            names.add(mname)
+            for c in ci.mro():
+                fn = c.methods.get(mname)
+                if fn is None:
+                    continue
+                for x in ast.walk(fn):
+                    if isinstance(x, ast.Call) and isinstance(x.func, ast.Attribute) and isinstance(x.func.value, (ast.Name, ast.Call)):
+                        recv = x.func.value
+                        if (isinstance(recv, ast.Name) and recv.id == "self") or (isinstance(recv, ast.Call) and call_name(recv) == "super"):
+                            if x.func.attr.startswith("_") and not x.func.attr.startswith("__"):
+                                work.append(x.func.attr)
+        for mname in sorted(names):
             for c in ci.mro():
                 fn = c.methods.get(mname)
                 if fn is None:
